@@ -20,6 +20,7 @@ import (
 	"os"
 	"path/filepath"
 
+	"github.com/mitchellh/copystructure"
 	"github.com/pkg/errors"
 
 	chartutil "helm.sh/helm/v4/pkg/chart/v2/util"
@@ -63,7 +64,16 @@ func validateValuesFile(valuesPath string, overrides map[string]interface{}) err
 	// We could change that. For now, though, we retain that strategy, and thus can
 	// coalesce tables (like reuse-values does) instead of doing the full chart
 	// CoalesceValues
-	coalescedValues := chartutil.CoalesceTables(make(map[string]interface{}, len(overrides)), overrides)
+	// Work on a deep copy: CoalesceTables writes into the nested tables of its destination,
+	// which would otherwise alias (and alter) the caller's overrides.
+	coalescedValues := map[string]interface{}{}
+	if len(overrides) > 0 {
+		c, err := copystructure.Copy(overrides)
+		if err != nil {
+			return err
+		}
+		coalescedValues = c.(map[string]interface{})
+	}
 	coalescedValues = chartutil.CoalesceTables(coalescedValues, values)
 
 	ext := filepath.Ext(valuesPath)
